@@ -69,13 +69,14 @@ history since creation and every read time `now` not before the last event, the 
 equals the reference over the aligned window `[cbs now + L - Iv, cbs now]` (subtraction saturating
 at 0: the repaired `getBucketStartRange`). Nothing older is counted, nothing inside is lost. -/
 theorem viewSum_eq_ref (n L now0 : Nat) (hn : 0 < n) (hL : 0 < L) (h : List (Nat × M)) (mono : Mono now0 h)
-    (now : Nat) (hnow : ∀ e ∈ h, e.1 ≤ now) (hnow0 : now0 ≤ now) (Iv : Nat) (hIv : Iv ≤ n * L) (hIv0 : 0 < Iv) :
+    (now : Nat) (hnow : ∀ e ∈ h, e.1 ≤ now) (hnow0 : now0 ≤ now) (hpos : 0 < now)
+    (Iv : Nat) (hIv : Iv ≤ n * L) (hIv0 : 0 < Iv) :
     viewSum (runAdds (mk n L now0) h) Iv now = refW L h (cbs L now + L - Iv) (cbs L now) := by
   have hLn := runAdds_nL (mk n L now0 : Arr M) h
   have hL' : (runAdds (mk n L now0 : Arr M) h).L = L := by simpa [mk] using hLn.1
   have hn' : (runAdds (mk n L now0 : Arr M) h).n = n := by simpa [mk] using hLn.2
   unfold viewSum viewVals rangeOf
-  simp only [hL', hn']
+  simp only [hL', hn', Nat.ne_of_gt hpos, if_false]
   rw [sum_filter_eq_readW]
   · exact window_eq_ref n L now0 hn hL h mono now hnow hnow0 _ _ (by omega)
   · intro s _ hw
@@ -92,7 +93,7 @@ earlier, under the property's own side condition `Iv + Lv ≤ n·L` (the array c
 no slot for). -/
 theorem prevSum_eq_ref (n L now0 : Nat) (hn : 0 < n) (hL : 0 < L) (h : List (Nat × M)) (mono : Mono now0 h)
     (now : Nat) (hnow : ∀ e ∈ h, e.1 ≤ now) (hnow0 : now0 ≤ now) (Iv Lv : Nat) (hIv : Iv + Lv ≤ n * L)
-    (hLv : Lv ≤ now) (hdiv : L ∣ Lv) :
+    (hLv : Lv < now) (hdiv : L ∣ Lv) :
     viewSum (runAdds (mk n L now0) h) Iv (now - Lv) = refW L h (cbs L (now - Lv) + L - Iv) (cbs L (now - Lv)) := by
   have hLn := runAdds_nL (mk n L now0 : Arr M) h
   have hL' : (runAdds (mk n L now0 : Arr M) h).L = L := by simpa [mk] using hLn.1
@@ -100,15 +101,17 @@ theorem prevSum_eq_ref (n L now0 : Nat) (hn : 0 < n) (hL : 0 < L) (h : List (Nat
   obtain ⟨k, rfl⟩ := hdiv
   have hcb : cbs L (now - L * k) + L * k = cbs L now := by
     rw [cbs_eq, cbs_eq]
-    have : (now - L * k) / L = now / L - k := Nat.sub_mul_div_of_le now L k hLv
+    have hLv' : L * k ≤ now := Nat.le_of_lt hLv
+    have : (now - L * k) / L = now / L - k := Nat.sub_mul_div_of_le now L k hLv'
     rw [this]
     have hk : k ≤ now / L := by
-      rw [Nat.le_div_iff_mul_le hL, Nat.mul_comm]; exact hLv
+      rw [Nat.le_div_iff_mul_le hL, Nat.mul_comm]; exact hLv'
     rw [Nat.sub_mul]
     have : k * L ≤ now / L * L := Nat.mul_le_mul_right _ hk
     rw [Nat.mul_comm L k]; omega
+  have hpos : now - L * k ≠ 0 := by omega
   unfold viewSum viewVals rangeOf
-  simp only [hL', hn']
+  simp only [hL', hn', hpos, if_false]
   rw [sum_filter_eq_readW]
   · exact window_eq_ref n L now0 hn hL h mono now hnow hnow0 _ _ (by omega)
   · intro s _ hw
@@ -131,16 +134,18 @@ end generic
 
 /-- `GetSum(ev)` of a view equals the reference count of `ev` in the aligned window -/
 theorem getSum_eq_ref (n L now0 : Nat) (hn : 0 < n) (hL : 0 < L) (h : List (Nat × Bucket)) (mono : Mono now0 h)
-    (now : Nat) (hnow : ∀ e ∈ h, e.1 ≤ now) (hnow0 : now0 ≤ now) (Iv : Nat) (hIv : Iv ≤ n * L) (hIv0 : 0 < Iv) (ev : Ev) :
+    (now : Nat) (hnow : ∀ e ∈ h, e.1 ≤ now) (hnow0 : now0 ≤ now) (hpos : 0 < now)
+    (Iv : Nat) (hIv : Iv ≤ n * L) (hIv0 : 0 < Iv) (ev : Ev) :
     vSum (runAdds (mk n L now0) h) Iv now ev = (refW L h (cbs L now + L - Iv) (cbs L now)).get ev := by
-  unfold vSum; rw [viewSum_eq_ref n L now0 hn hL h mono now hnow hnow0 Iv hIv hIv0]
+  unfold vSum; rw [viewSum_eq_ref n L now0 hn hL h mono now hnow hnow0 hpos Iv hIv hIv0]
 
 /-- `MinRT` / `MaxConcurrency` of a view equal the reference minimum / peak over the aligned window -/
 theorem minRt_maxConc_eq_ref (n L now0 : Nat) (hn : 0 < n) (hL : 0 < L) (h : List (Nat × Bucket)) (mono : Mono now0 h)
-    (now : Nat) (hnow : ∀ e ∈ h, e.1 ≤ now) (hnow0 : now0 ≤ now) (Iv : Nat) (hIv : Iv ≤ n * L) (hIv0 : 0 < Iv) :
+    (now : Nat) (hnow : ∀ e ∈ h, e.1 ≤ now) (hnow0 : now0 ≤ now) (hpos : 0 < now)
+    (Iv : Nat) (hIv : Iv ≤ n * L) (hIv0 : 0 < Iv) :
     vMinRt (runAdds (mk n L now0) h) Iv now = max 1 (refW L h (cbs L now + L - Iv) (cbs L now)).minRt ∧
     vMaxConc (runAdds (mk n L now0) h) Iv now = (refW L h (cbs L now + L - Iv) (cbs L now)).mc := by
-  unfold vMinRt vMaxConc; rw [viewSum_eq_ref n L now0 hn hL h mono now hnow hnow0 Iv hIv hIv0]; exact ⟨rfl, rfl⟩
+  unfold vMinRt vMaxConc; rw [viewSum_eq_ref n L now0 hn hL h mono now hnow hnow0 hpos Iv hIv hIv0]; exact ⟨rfl, rfl⟩
 
 /-- the window payload's counters are plain sums, its `mc` a maximum and its `minRt` a minimum capped at 60000:
     what "computed from the multiset of recorded events" means for each getter -/
@@ -169,5 +174,13 @@ example : Mono 100 [(100, evBucket .pass 3), (700, evBucket .pass 2)] := by simp
 theorem underflow_witness :
     (rangeOfWrap 500 1000 100).1 > 100 ∧ (rangeOf 500 1000 100) = (0, 0) ∧
     (refW 500 [(100, evBucket .pass 1)] 0 (cbs 500 100)).pass = 1 := by decide
+
+/-- known finding `items-boundary-bucket` (not repaired; same strict test as upstream): a per-second
+    item read issued exactly on a bucket boundary (array 20×1 ms created at t=1, 3 passes at t=618, read at
+    t=638 with no refresh in between) still reports the bucket 618 = 638 − 20, although the aligned
+    window ending at the current bucket is [619, 638] and contains nothing. -/
+theorem items_boundary_witness :
+    ((secondItems (addAt (mk 20 1 1 : Arr Bucket) 618 (evBucket .pass 3)).1 638 0 100000).map fun p => p.2.pass) = [3]
+    ∧ (refW 1 [(618, evBucket .pass 3)] 619 638).pass = 0 := by decide
 
 end Sentinel.C08
